@@ -7,8 +7,10 @@ safe operations (incl. clone, then drop/clear of the original) is free of undefi
    (spec/props/C37.tla); the replay binary executes them on the real IdSet natively, under AddressSanitizer
    and (a stratified sample) under Miri; every step is compared with the expectation."""
 import collections
+import json
 import os
 import random
+import time
 
 import vlib
 from props import utilchan
@@ -18,7 +20,7 @@ RISK_ORDER = ["", "shared-live", "reused-slot", "stale-slot", "freed-buffer"]
 
 def _mc(cfg, workers, timeout):
     res = vlib.tlc(os.path.join(vlib.SPEC, "props", "C37mc.tla"), cfg=os.path.join(vlib.SPEC, "props", cfg),
-                   workers=workers, timeout=timeout)
+                   workers=min(workers, utilchan.TLC_WORKERS), timeout=timeout, xmx=utilchan.TLC_XMX)
     return res
 
 
@@ -28,7 +30,7 @@ def _gen(prop, cfg, workers, timeout):
     if os.path.exists(out):
         os.remove(out)
     res = vlib.tlc(os.path.join(vlib.SPEC, "props", "C37.tla"), cfg=os.path.join(vlib.SPEC, "props", cfg),
-                   workers=workers, env={"OUT": out}, timeout=timeout)
+                   workers=min(workers, utilchan.TLC_WORKERS), env={"OUT": out}, timeout=timeout, xmx=utilchan.TLC_XMX)
     vlib.tlc_ok(res, cfg)
     return utilchan.decode_tlc_lines(out), res
 
@@ -80,19 +82,38 @@ def _check(rep, channel, cases, obs, tally, filed):
             tally[channel]["agree"] += 1
             continue
         k, what, mism = dev
-        key = "%s|%s" % (c["expect"][k - 1]["key"], what)
-        tally[channel]["deviations"][key] += 1
+        # coarse observation class: wrong value / aliasing-model violation (Miri only) / memory error (sanitizer report, crash)
+        coarse = "value" if what == "value" else "aliasing" if what.endswith(":aliasing") else \
+            "timeout" if what.startswith("timeout") else "memory-error"
+        key = "%s|%s" % (c["expect"][k - 1]["key"], coarse)
+        tally[channel]["deviations"][key + " (" + what + ")"] += 1
         filed[key] += 1
         if filed[key] > 3:
             continue            # same defect family: counted in coverage.channels, three replay files are enough
-        small = {kk: c[kk] for kk in ("id", "kind", "ty", "nslots", "probe", "ops", "obs_from") if kk in c}
-        small["channel"] = channel
-        small["expect_at_step"] = c["expect"][k - 1]
-        small["step"] = k
+        small = dict(c, channel=channel, deviation_at_step=k)
         rep.finding(key, small, {"status": o["status"], "ub": o.get("ub"),
                                  "step": o["steps"][k - 1] if k <= len(o["steps"]) else None}, mism,
                     "IdSet history %s (%s, T=%s): %s" % (c["id"].split("@")[0], channel, c.get("ty"),
                                                          mism[0]["got"] if mism else what))
+
+
+def replay(prop, path):
+    """re-run one recorded history in its channel and compare again"""
+    with open(path) as fh:
+        r = json.load(fh)
+    case = r["case"]
+    wd = vlib.workdir(prop + "_replay")
+    utilchan.prepare(case["channel"], wd)
+    obs, _ = utilchan.run(case["channel"], [case], wd, "replay", jobs=1, case_timeout=120.0, startup=300.0)
+    dev = _first_deviation(case, obs[0])
+    print(json.dumps({"observed": obs[0], "deviation": dev}, indent=1)[:6000])
+    if dev:
+        print("VIOLATION property=%s replay=%s" % (prop, path))
+        return 1
+    return 0
+
+
+utilchan.install_replay("C37", replay)
 
 
 def _max_risk(case):
@@ -106,29 +127,11 @@ def run(prop, tier, seed):
     rnd = random.Random(seed)
     t = {}
 
-    import threading
-    import time
-    errors = []
-
-    def bg(fn):
-        def wrapped():
-            try:
-                fn()
-            except Exception as e:  # noqa
-                errors.append(e)
-        th = threading.Thread(target=wrapped)
-        th.start()
-        return th
-
-    # ---- 1. design-level model checking (in the background)
-    mc = {}
-
-    def model_check():
-        t0 = time.time()
-        mc["as"] = _mc("C37mc_aswritten.cfg" if quick else "C37mc_aswritten_thorough.cfg", 1, 600)
-        mc["rep"] = _mc("C37mc_repaired.cfg" if quick else "C37mc_repaired_thorough.cfg", 2 if quick else 6, 900)
-        t["model_checking_s"] = round(time.time() - t0, 1)
-    th_mc = bg(model_check)
+    # ---- 1. design-level model checking (one tool at a time: shared machine)
+    t0 = time.time()
+    mc = {"as": _mc("C37mc_aswritten.cfg" if quick else "C37mc_aswritten_thorough.cfg", 1, 600),
+          "rep": _mc("C37mc_repaired.cfg" if quick else "C37mc_repaired_thorough.cfg", 2, 900)}
+    t["model_checking_s"] = round(time.time() - t0, 1)
 
     # ---- 2. histories with expected projections
     t0 = time.time()
@@ -136,7 +139,7 @@ def run(prop, tier, seed):
     cases, gen_states, gen_trans = [], 0, 0
     seen = set()
     for cfg in cfgs:
-        cs, res = _gen(prop, cfg, 4 if quick else 8, 900)
+        cs, res = _gen(prop, cfg, 2, 900)
         gen_states += res.distinct
         gen_trans += res.generated
         for c in cs:
@@ -147,11 +150,18 @@ def run(prop, tier, seed):
         raise vlib.ToolError("TLC generated no histories")
     t["generate_s"] = round(time.time() - t0, 1)
 
-    # ---- 3. replay: native (all, 3 element types), ASan (all, 2 types + observe-only-at-end variant), Miri (sample)
+    # ---- 3. replay: native (all, 3 element types), ASan (all; + observe-only-at-end variant), Miri (sample)
     tally = collections.defaultdict(lambda: {"runs": 0, "steps": 0, "agree": 0, "deviations": collections.Counter()})
     filed = collections.Counter()
     results = {}
     t0 = time.time()
+    native_cases = [_variant(c, ty) for c in cases for ty in ("string", "u32", "arr4")]
+    results["native"] = (native_cases,) + utilchan.run("native", native_cases, wd, "native", jobs=4, case_timeout=1.0)
+    utilchan.build_asan()
+    asan_cases = [_variant(c, ty) for c in cases for ty in (("string",) if quick else ("string", "u32"))]
+    asan_cases += [_variant(c, "string", len(c["ops"])) for c in cases
+                   if len(c["ops"]) > 1 and any(o["op"] in ("clone", "move") for o in c["ops"])]
+    results["asan"] = (asan_cases,) + utilchan.run("asan", asan_cases, wd, "asan", jobs=4, case_timeout=2.0)
 
     # Miri is slow to start (seconds per process) and dies at the first UB: a seed-chosen sample, stratified by the risk
     # class the as-written pointer model predicts so that every family is hit; histories for which that model predicts a
@@ -159,41 +169,23 @@ def run(prop, tier, seed):
     by_risk = collections.defaultdict(list)
     for c in cases:
         by_risk[_max_risk(c)].append(c)
-    plan = {"miri-tb": (8 if quick else 12, 2 if quick else 12, 1 if quick else 6),
-            "miri-sb": (4 if quick else 6, 0, 1 if quick else 4)}
-
-    def miri():
-        utilchan.build_miri(wd)
-        ths = []
-        for mode, (jobs, safe_per_job, risky_per_job) in plan.items():
-            safe_pool = sorted(by_risk.get("", []) + by_risk.get("shared-live", []), key=lambda c: c["id"])
-            risky_pool = sorted(by_risk.get("stale-slot", []) + by_risk.get("freed-buffer", []), key=lambda c: c["id"])
-            if mode == "miri-sb":
-                safe_pool, risky_pool = [], sorted(cases, key=lambda c: c["id"])
-            safe = rnd.sample(safe_pool, min(jobs * safe_per_job, len(safe_pool)))
-            risky = rnd.sample(risky_pool, min(jobs * risky_per_job, len(risky_pool)))
-            mcases = [_variant(c, "string" if i % 3 else "u32", len(c["ops"]) if i % 4 == 3 else None)
-                      for i, c in enumerate(safe + risky)]
-
-            def one(mode=mode, mcases=mcases, jobs=jobs):
-                results[mode] = (mcases,) + utilchan.run(mode, mcases, wd, mode, jobs=jobs, case_timeout=60.0, startup=240.0)
-            ths.append(bg(one))
-        for th in ths:
-            th.join()
-    th_miri = bg(miri)
-
-    native_cases = [_variant(c, ty) for c in cases for ty in ("string", "u32", "arr4")]
-    results["native"] = (native_cases,) + utilchan.run("native", native_cases, wd, "native", jobs=8, case_timeout=1.0)
-    utilchan.build_asan()
-    asan_cases = [_variant(c, ty) for c in cases for ty in (("string",) if quick else ("string", "u32"))]
-    asan_cases += [_variant(c, "string", len(c["ops"])) for c in cases
-                   if len(c["ops"]) > 1 and any(o["op"] in ("clone", "move") for o in c["ops"])]
-    results["asan"] = (asan_cases,) + utilchan.run("asan", asan_cases, wd, "asan", jobs=8, case_timeout=2.0)
-    th_miri.join()
-    th_mc.join()
-    if errors:
-        e = errors[0]
-        raise e if isinstance(e, vlib.ToolError) else vlib.ToolError("background task failed: %r" % (e,))
+    plan = {"miri-tb": (6 if quick else 12, 2 if quick else 12, 1 if quick else 6),
+            "miri-sb": (3 if quick else 6, 0, 1 if quick else 4)}
+    utilchan.build_miri(wd)
+    for mode, (jobs, safe_per_job, risky_per_job) in plan.items():
+        safe_pool = sorted(by_risk.get("", []) + by_risk.get("shared-live", []), key=lambda c: c["id"])
+        risky_pool = sorted(by_risk.get("stale-slot", []) + by_risk.get("freed-buffer", []), key=lambda c: c["id"])
+        if mode == "miri-sb":
+            # Stacked Borrows: histories that insert at least twice into one instance (sample selection only)
+            safe_pool, risky_pool = [], sorted(
+                [c for c in cases
+                 if max(collections.Counter(o["s"] for o in c["ops"] if o["op"] == "insert").values(), default=0) >= 2],
+                key=lambda c: c["id"])
+        safe = rnd.sample(safe_pool, min(jobs * safe_per_job, len(safe_pool)))
+        risky = rnd.sample(risky_pool, min(jobs * risky_per_job, len(risky_pool)))
+        mcases = [_variant(c, "string" if i % 3 else "u32", len(c["ops"]) if i % 4 == 3 else None)
+                  for i, c in enumerate(safe + risky)]
+        results[mode] = (mcases,) + utilchan.run(mode, mcases, wd, mode, jobs=jobs, case_timeout=60.0, startup=240.0)
     for ch in ("native", "asan", "miri-tb", "miri-sb"):
         ccases, obs, st = results[ch]
         _check(rep, ch, ccases, obs, tally, filed)
